@@ -31,9 +31,9 @@ static void op_gensalt (int n, char **tok)
       jmp_buf jb; abort_jmp = &jb;
       if (!setjmp (jb))
         {
-          in_call = 1; errno = 0;
+          in_call = 1; errno = ENTRY_ERRNO;
           ret = crypt_gensalt_rn ((const char *)prefix, count, (const char *)rb, nrbytes, out, (int)osize);
-          e = errno; in_call = 0;
+          e = errno; last_errno = e; in_call = 0;
         }
       else { in_call = 0; aborted = 1; e = 0; ret = NULL; }
       int guard_ok = 1;
@@ -54,10 +54,10 @@ static void op_gensalt (int n, char **tok)
       jmp_buf jb; abort_jmp = &jb;
       if (!setjmp (jb))
         {
-          in_call = 1; errno = 0;
+          in_call = 1; errno = ENTRY_ERRNO;
           if (!strcmp (entry, "ra")) ret = crypt_gensalt_ra ((const char *)prefix, count, (const char *)rb, nrbytes);
           else ret = crypt_gensalt ((const char *)prefix, count, (const char *)rb, nrbytes);
-          e = errno; in_call = 0;
+          e = errno; last_errno = e; in_call = 0;
         }
       else { in_call = 0; aborted = 1; e = 0; ret = NULL; }
       printf ("ret=");
